@@ -21,6 +21,10 @@ const fn wi(profile: Profile, expand: Option<ExpandOpts>) -> WalkOpts {
     WalkOpts { profile, expand, follow_norep: false, inject: crate::drive::Inject::Auto }
 }
 
+const fn wr(profile: Profile, expand: Option<ExpandOpts>) -> WalkOpts {
+    WalkOpts { profile, expand, follow_norep: false, inject: crate::drive::Inject::Rebuild }
+}
+
 const fn wn(profile: Profile) -> WalkOpts {
     WalkOpts { profile, expand: None, follow_norep: true, inject: crate::drive::Inject::No }
 }
@@ -85,6 +89,8 @@ fn legs_base(id: &str) -> Vec<Leg> {
             leg!("tree_from_positions", POS_ONLY, w(Profile::Fight, Some(TREE)), 60, 1800, 60, mk),
             leg!("tree_along_games", MIX, w(Profile::Fight, Some(TREE_LIGHT)), 40, 1200, 300, mk),
             leg!("false_protection_motif_tree", MOTIF, w(Profile::Fight, Some(TREE)), 150, 1200, 60, mk),
+            leg!("rebuilt_states_tree", POS_ONLY, wr(Profile::Fight, Some(TREE_LIGHT)), 40, 320, 60, mk),
+            leg!("rebuilt_states_motif_tree", MOTIF, wr(Profile::Fight, Some(TREE)), 100, 800, 60, mk),
         ],
         "C02" => vec![
             leg!("games_fight", MIX, w(Profile::Fight, Some(TREE_LIGHT)), 480, 14400, 600, mk),
@@ -99,6 +105,8 @@ fn legs_base(id: &str) -> Vec<Leg> {
             leg!("games_normal", MIX, w(Profile::Normal, None), 1600, 48000, 1500, mk),
             leg!("games_fight", SMALL, w(Profile::Fight, None), 1600, 48000, 600, mk),
             leg!("false_protection_motif_tree", MOTIF, w(Profile::Fight, Some(TREE)), 300, 2400, 60, mk),
+            leg!("injected_history_near_immobile", FROZEN, wi(Profile::Cycle, None), 1000, 8000, 600, mk),
+            leg!("injected_history_normal", MIX, wi(Profile::Normal, None), 400, 3200, 600, mk),
         ],
         "C05" | "C06" | "C07" => vec![
             leg!("small_cycle", SMALL, w(Profile::Cycle, None), 5000, 150000, 1500, mk),
@@ -132,6 +140,8 @@ fn legs_base(id: &str) -> Vec<Leg> {
             leg!("tree_from_positions", POS_ONLY, w(Profile::Fight, Some(TREE)), 300, 9000, 60, mk),
             leg!("games_fight", MIX, w(Profile::Fight, Some(TREE_LIGHT)), 400, 12000, 400, mk),
             leg!("false_protection_motif_tree", MOTIF, w(Profile::Fight, Some(TREE)), 300, 2400, 60, mk),
+            leg!("rebuilt_states_motif_tree", MOTIF, wr(Profile::Fight, Some(TREE)), 100, 800, 60, mk),
+            leg!("rebuilt_states_games", MIX, wr(Profile::Fight, None), 300, 2400, 400, mk),
         ],
         "C13" => vec![
             leg!("games_fight", MIX, w(Profile::Fight, Some(TREE_LIGHT)), 120, 3600, 500, mk),
@@ -153,6 +163,8 @@ fn legs_base(id: &str) -> Vec<Leg> {
             leg!("small_cycle", SMALL, w(Profile::Cycle, None), 400, 12000, 1000, mk),
             leg!("small_cycle_through_withheld_actions", SMALL, wn(Profile::Cycle), 600, 18000, 1000, mk),
             leg!("false_protection_motif_tree", MOTIF, w(Profile::Fight, Some(TREE)), 200, 1600, 60, mk),
+            leg!("injected_history_near_immobile", FROZEN, wi(Profile::Cycle, None), 800, 6400, 600, mk),
+            leg!("injected_history_fight", MIX, wi(Profile::Fight, None), 300, 2400, 600, mk),
         ],
         _ => vec![],
     }
